@@ -143,6 +143,7 @@ def run_oracle(pid, mode, payload, timeout=600):
     import tempfile, shutil
 
     scratch = tempfile.mkdtemp(prefix="vf_oracle_")
+    env["TMPDIR"] = scratch  # temporary files of the code under test (accelforge.util.parallel leaves *.pkl behind) go with it
     try:
         p = subprocess.run(cmd, input=json.dumps(payload), capture_output=True, text=True, timeout=timeout, env=env, cwd=scratch)
     finally:
